@@ -18,7 +18,11 @@ import (
 func decisionView(e *testEnv, v *respView) string {
 	var cks []string
 	for _, c := range v.Cookies {
-		cks = append(cks, fmt.Sprintf("%s|%s|%s|%v", c.Name, c.Domain, c.Path, c.MaxAge < 0))
+		name := c.Name
+		if pre := e.opts.Cookie.Name + "_"; e.opts.Cookie.CSRFPerRequest && strings.HasPrefix(name, pre) && strings.HasSuffix(name, "_csrf") {
+			name = pre + "*_csrf" // the per-request cookie name embeds a fresh state substring
+		}
+		cks = append(cks, fmt.Sprintf("%s|%s|%s|%v", name, c.Domain, c.Path, c.MaxAge < 0))
 	}
 	sort.Strings(cks)
 	loc := v.Location
@@ -26,6 +30,11 @@ func decisionView(e *testEnv, v *respView) string {
 		q := u.Query()
 		// the state nonce, nonce and challenge are fresh per request: compare redirect_uri and the state's redirect part
 		st := q.Get("state")
+		if e.opts.EncodeState {
+			if raw, err := base64.RawURLEncoding.DecodeString(st); err == nil {
+				st = string(raw)
+			}
+		}
 		if i := strings.Index(st, ":"); i >= 0 {
 			st = st[i+1:]
 		}
@@ -103,6 +112,27 @@ var fwdHeaderSets = []http.Header{
 	{"X-Forwarded-Host": {"sub.cookie.example.com"}, "X-Forwarded-Proto": {"https"}, "X-Forwarded-Uri": {"/foo/b.js?x=1"}, "X-Real-Ip": {"10.0.0.9"}},
 }
 
+// fwdRandomSets: header sets drawn from every forwarding-style header name in common use (also ones the proxy
+// is NOT supposed to look at) x hosts / schemes / URIs / addresses, 1-5 headers per set
+func fwdRandomSets(r *rng, n int) []http.Header {
+	names := []string{"X-Forwarded-Host", "X-Forwarded-Proto", "X-Forwarded-Uri", "X-Forwarded-For", "X-Forwarded-Port", "X-Forwarded-Prefix", "Forwarded",
+		"X-Real-Ip", "X-Proxyuser-Ip", "X-Envoy-External-Address", "Cf-Connecting-Ip", "X-Original-Uri", "X-Original-Url", "X-Original-Method", "X-Http-Method-Override",
+		"X-Forwarded-Scheme", "X-Forwarded-Ssl", "Front-End-Https", "X-Url-Scheme", "X-Forwarded-Server", "Via", "True-Client-Ip", "X-Client-Ip", "X-Cluster-Client-Ip",
+		"X-Original-Forwarded-For", "X-Rewrite-Url", "X-Forwarded-Method", "X-Forwarded-Email", "X-Forwarded-User", "X-Scheme", "X-Host"} // (X-Auth-Request-Redirect is not a forwarding header: it is a validated landing-page candidate in every mode)
+	vals := []string{"evil.example.org", "allowed.example.net", "sub.cookie.example.com", "app.example.com", "https", "http", "on", "/foo/a.js", "/foo/b.js?x=1", "/oauth2/sign_in",
+		"/oauth2/auth", "/ping", "/app/x", "10.1.2.3", "10.1.2.3, 8.8.8.8", "8.8.8.8, 10.1.2.3", "10.0.0.9:4711", "::ffff:10.1.2.3", "for=10.1.2.3;proto=https;host=evil.example.org",
+		"GET", "POST", "OPTIONS", "443", "/prefix", "https://evil.example.org/x", "//evil.example.org", "admin@example.com", "1.1 proxy"}
+	out := make([]http.Header, 0, n)
+	for i := 0; i < n; i++ {
+		h := http.Header{}
+		for k := 1 + r.intn(5); k > 0; k-- {
+			h[r.pick(names)] = []string{r.pick(vals)}
+		}
+		out = append(out, h)
+	}
+	return out
+}
+
 func init() {
 	registerSuite("fwd-pairs", func(c *suiteCtx) {
 		u := defaultUser()
@@ -127,6 +157,17 @@ func init() {
 			w.RealClientIPHeader = "X-Forwarded-For"
 			w.ForceHTTPS = true
 			cfgs = append(cfgs, w)
+			if c.scale > 1 {
+				// thorough: every supported real-IP header, API routes, per-request CSRF, no cookie domains
+				for _, h := range []string{"X-ProxyUser-IP", "X-Envoy-External-Address", "CF-Connecting-IP"} {
+					v := base
+					v.ReverseProxy, v.RealClientIPHeader = true, h
+					cfgs = append(cfgs, v)
+				}
+				q := base
+				q.CookieDomains, q.CSRFPerRequest, q.APIRoutes, q.EncodeState = nil, true, []string{"^/app"}, true
+				cfgs = append(cfgs, q)
+			}
 		}
 		for _, cfg := range cfgs {
 			e, err := newEnv(c, cfg)
@@ -166,7 +207,8 @@ func init() {
 						continue
 					}
 					view0 := decisionView(e, v0)
-					for hi, hs := range fwdHeaderSets {
+					sets := append(append([]http.Header{}, fwdHeaderSets...), fwdRandomSets(c.rng, 3+8*(c.scale-1))...)
+					for hi, hs := range sets {
 						rs := fresh(baseRS)
 						rs.Header = hs
 						v1, _ := e.serveCase(rs, nil, "fwd:with-headers")
